@@ -41,12 +41,12 @@ claimed = {
    note="Prefix.Match is under a `nobody` contract (its result is named by uninterpreted functions); it is tied to the wording of the statement only by a bounded exhaustive stand-in (all keys/prefixes over {a,b,/} up to length 5 quick / 7 thorough), reported as bounded in the evidence and not counted as proved. ETag equality is not a clause (string concatenation of hex digest); V1/V2 XML rendering, bolt and afero listings are outside the verified set. Trusted: skiplist model (sorted unique keys).",
    technique=T, design="7 (C03)"),
  "C04": dict(category="proof",
-   text="For the paginating backend (memory), ListBucket is verified to return at most MaxKeys entries, to start strictly after the marker whether or not the marker is present, and when it reports IsTruncated to hand back a NextMarker that is a key of the bucket after the marker such that the page is complete for every key up to and including NextMarker and contains no key beyond it; when not truncated the page is complete for the whole bucket. listBucket/listBucketPageFromQuery/parseClampedInt carry the request decoding. These one-page contracts are what the multi-page statement follows from by induction on the position of NextMarker in the key order.",
+   text="For the paginating backend (memory), ListBucket is verified to return at most MaxKeys entries, to start strictly after the marker whether or not the marker is present, and when it reports IsTruncated to hand back a NextMarker that is a key of the bucket after the marker such that the page is complete for every key up to and including NextMarker and contains no key beyond it; when not truncated the page is complete for the whole bucket. listBucket/listBucketPageFromQuery/parseClampedInt carry the request decoding (marker, decoded continuation token with precedence over start-after, start-after, none). The clause that no key after NextMarker falls into a common prefix already reported on the page fails on the unchanged tree and is recorded as known finding D15. These one-page contracts are what the multi-page statement follows from by induction on the position of NextMarker in the key order.",
    note="The induction over pages itself (concatenation of pages equals the unpaginated listing) is a consequence argued in DESIGN.md, not a discharged obligation; termination of the page walk follows from NextMarker being strictly after the marker (clause next). The fallback path for non-paginating backends is covered only as far as listBucket's contract states it. Prefix.Match as for C03 (bounded stand-in).",
    technique=T, design="7 (C04)"),
  "C14": dict(category="proof",
    text="uploader.ListParts is verified against the statement: exactly the parts held for the upload after the marker, true part numbers, sizes and ETags, ascending order, MaxParts respected, IsTruncated/NextPartNumberMarker such that the next page continues with none skipped or repeated; together with UploadPart/CompleteMultipartUpload/Abort/remove contracts on the uploader invariant. All inputs and all iterations.",
-   note="ListMultipartUploads and the ordering of the per-bucket upload index (bucketUploads.add/remove index consistency) are not yet under contract: a seeded change to remove() that leaves a stale index entry is NOT detected (DESIGN.md, seeded table). ",
+   note="bucketUploads.add/remove are verified to keep the two views of the pending uploads consistent (every index entry is the upload registered under its id and filed under its own key, ids distinct, every registered upload indexed, order of the remaining entries preserved); CreateMultipartUpload/AbortMultipartUpload/CompleteMultipartUpload preserve these invariants for every bucket (two frame lemmas of CompleteMultipartUpload are waived and listed in the evidence); upload ids are fresh by a counter model of math/big. ListMultipartUploads is verified for panic-freedom, the limit, soundness of every listed upload (registered, under that key) and of the next markers (they name a registered upload of NextKeyMarker; empty when not truncated). NOT under contract: completeness and order of ListMultipartUploads and its treatment of common prefixes at page boundaries.",
    technique=T, design="7 (C14)"),
  "C16": dict(category="proof",
    text="hostBucketMiddleware and hostBucketBaseMiddleware closures are verified in the SMT theory of strings: the rewritten request path is '/' + first host label + original path exactly when the host has the form <single label>.<base> for a configured base (or unconditionally in host-bucket mode), untouched otherwise, and the inner handler is served exactly once with it; Server wires the middlewares according to the options. routeBase's dispatch is verified over the decomposition of the path.",
@@ -58,7 +58,7 @@ claimed = {
    technique=T, design="7 (C10), 12"),
  "C01": dict(category="proof",
    text="Memory backend and root package, all inputs: ReadAll returns exactly the next `size` bytes of the stream (ghost rd_data) or an error; s3mem PutObject stores a body equal byte-for-byte to those bytes, hash = md5.Sum(body) and etag = quote(hex(hash)), metadata = the map passed in; toObject/GetObject hand back a bytes.Reader over the stored body (or the requested sub-range of it: contents clause over the reader's source slice), Size = len(body), Hash and Metadata those of the stored version; createObject passes to PutObject the request's bucket/key, a hashingReader over the request body (directly or through the chunk decoder) and the declared size; metadataHeaders keeps exactly the documented headers; CopyObject reads the source key and writes the destination key; getObject/headObject serve the object read for (bucket, key, version); response headers are observed through ghosts of the writer's header map: writeGetOrHeadObjectResponse sets ETag to quote(hex(obj.Hash)) and x-amz-version-id to the object's version, writeHeader/headObject/getObject set Content-Length, createObject sets ETag.",
-   note="Header values other than ETag and the version id are only known to be set, not what they are (fmt.Sprintf is uninterpreted); the metadata-header loop of writeGetOrHeadObjectResponse is covered for safety only. Not modelled: md5 and hex themselves (uninterpreted but the same symbol on both sides), the browser-form POST path beyond safety, BSON/JSON encodings. Bolt and afero backends are outside the verified set, so 'on every bundled backend' is not decided. A heap array sliced and then written through its own name is not tracked through the slice (DESIGN.md 12.2).",
+   note="Header values other than ETag and the version id are only known to be set, not what they are (fmt.Sprintf is uninterpreted); the metadata-header loop of writeGetOrHeadObjectResponse sets every stored metadata entry as a header with its stored value (except the three names the function overwrites afterwards). Not modelled: md5 and hex themselves (uninterpreted but the same symbol on both sides), the browser-form POST path beyond safety, BSON/JSON encodings. Bolt and afero backends are outside the verified set, so 'on every bundled backend' is not decided. A heap array sliced and then written through its own name is not tracked through the slice (DESIGN.md 12.2).",
    technique=T, design="7 (C01), 12"),
  "C13": dict(category="proof",
    text="bucketObject.Iterator and bucketObjectIterator.Seek/Next/Value/Close are verified against the skiplist model (no call on a nil iterator: D11 fixed; Next yields a non-nil version, the current version last; a failed Seek ends the iteration); s3mem ListBucketVersions is verified for panic-freedom, len(Versions) <= MaxKeys when MaxKeys > 0, the store being unchanged, lock balance, and the clause taken from the statement that a truncated response carries next markers — which fails on the unchanged tree and is recorded as known finding D10.",
